@@ -91,7 +91,7 @@ def random_case(rng, tier):
     else:
         program = programs.gen_process_program(rng, PROGRAM_CFG)
     ticks, notify, _ = common.dry_run(program)
-    kinds = KINDS + (['cancel'] if rng.random() < 0.2 else [])
+    kinds = KINDS + (['cancel'] if rng.random() < 0.2 else []) + (['cancel_stepper'] if rng.random() < 0.15 else [])
     if program.get('kind') == 'workchain':
         kinds = ['pause', 'play', 'kill', 'kill', 'complete'] + (['cancel'] if rng.random() < 0.2 else [])
     max_actions = 4 if tier == 'quick' else 6
@@ -184,7 +184,13 @@ def _oracle(engine, result, case):
             break
 
     final_state = proc.state.value
-    if first_kill is not None:
+    # when whoever runs the process gave up in between (its stepping task was cancelled), "as soon as the current step
+    # yields" has no meaning any more: what remains is that kill() never raises and that a further kill() terminates the
+    # process from wherever that left it
+    abandoned = engine.stepper_cancelled > 0
+    if abandoned:
+        result.counters['probe:stepping_task_cancelled'] += 1
+    if first_kill is not None and not abandoned:
         index, text = first_kill
         signature_ctx = _kill_context_signature(engine, index)
         later_steps = [e for e in events[index + 1:] if e[0] in ('step', 'wstep')]
@@ -208,6 +214,8 @@ def _oracle(engine, result, case):
 
     # -- (5) cancelling the process's future while it is live has the same effect as kill() --------------------
     for record in engine.records:
+        if abandoned:
+            break
         if record.action['act'] == 'cancel' and record.pre_live and record.result is True:
             raised = any(e[0] == 'raise' for e in events)
             if not (final_state == 'killed' or (final_state == 'excepted' and raised)):
@@ -222,7 +230,7 @@ def _oracle(engine, result, case):
                 if r.action['act'] == 'kill' and r.raised is None]
     returned += [('self', value) for kind, live, value in world.self_results
                  if kind == 'kill' and not isinstance(value, BaseException)]
-    if proc.has_terminated():
+    if proc.has_terminated() and not abandoned:
         for where, value in returned:
             normal = common.future_value(value)
             if (normal is True) != ended_killed:
